@@ -23,3 +23,55 @@ UNITS = [
          stub=['BoundingBox2_point_inside_implementation'], nothrow=['BoundingBox2_point_inside_implementation'],
          replace=['BoundingBox2_point_inside_implementation'], outline_fp='all', defines={'WB_VEC_CAP': 2}, expect_fail=['REACHABILITY-GUARD']),
 ]
+
+
+# ----------------------------------------------------------------------------- native replay oracle
+import json, math
+
+
+def _slab_world(lon0, lat0=-10, dip_lat=-30):
+    return json.dumps({"version": "1.1", "coordinate system": {"model": "spherical", "depth method": "begin segment"}, "features": [
+        {"model": "subducting plate", "name": "S", "coordinates": [[lon0, lat0], [lon0 + 18, lat0]], "dip point": [lon0 + 9, dip_lat],
+         "segments": [{"length": 400e3, "thickness": [100e3], "angle": [45]}],
+         "composition models": [{"model": "uniform", "compositions": [0]}]}]})
+
+
+def native_oracle(witness, work, search_seed=None):
+    """the bounding-box pre-test never discards a member: a slab written with longitudes beyond 180 degrees answers a query from
+    the other side of the date line exactly like the same slab rotated 40 degrees west answers the rotated query"""
+    import oracle
+    R0 = 6371000.0
+    # trench written as -188..-170 (reaching past the date line to the west), in the southern hemisphere; queries from the
+    # eastern-hemisphere side (positive longitude) reach the box only through their -360 degree copy
+    qa = oracle.Q(_slab_world(-188), work, name='dateline')
+    qb = oracle.Q(_slab_world(-228), work, name='rotated')
+    try:
+        if qa.construct_error or qb.construct_error:
+            return dict(status='error', detail=str(qa.construct_error or qb.construct_error))
+        n_in = 0
+        for lon in [-178.0, -175.0, -172.5, 179.0, 175.0]:
+            for lat in [-10.5, -11.0, -12.0, -13.0, -9.0]:
+                for depth in [30e3, 80e3, 150e3]:
+                    ans = []
+                    for q, shift in ((qa, 0.0), (qb, -40.0)):
+                        lo, la, r = math.radians(lon + shift), math.radians(lat), R0 - depth
+                        x, y, z = r * math.cos(la) * math.cos(lo), r * math.cos(la) * math.sin(lo), r * math.sin(la)
+                        ans.append(q.ask('c3 %r %r %r %r 0' % (x, y, z, depth)))
+                    if ans[0][0] != 'OK' or ans[1][0] != 'OK':
+                        continue
+                    a, b = float.fromhex(ans[0][1][0]), float.fromhex(ans[1][1][0])
+                    n_in += b > 0.5
+                    if (a > 0.5) != (b > 0.5):
+                        return dict(status='violated', input=dict(trench_longitudes=[-188, -170], trench_latitude=-10, query=[lon, lat, depth]),
+                                    detail='slab with trench longitudes -188..-170 at latitude -10, query (lon %g, lat %g, depth %g km): composition %g, but the same slab rotated 40 degrees west '
+                                           'answers %g at the rotated point - the member is discarded by the bounding-box pre-test across the date line' % (lon, lat, depth / 1e3, a, b))
+        if n_in == 0:
+            return dict(status='error', detail='oracle world has no member among the sampled points')
+        return dict(status='holds', detail='75 points around a slab crossing the date line agree with the rotated slab (%d inside)' % n_in)
+    finally:
+        qa.close()
+        qb.close()
+
+
+def witness_from_trace(unit, failure, seed):
+    return {}
